@@ -547,7 +547,7 @@ func toForStmt(forPos token.Pos, value ast.Expr, body *ast.BlockStmt, re *ast.Ra
 	var cond ast.Expr
 	var post ast.Expr
 	switch re.Last.(type) {
-	case *ast.Ident, *ast.BasicLit:
+	case *ast.BasicLit: // a variable is evaluated once too: the body may change it
 		cond = re.Last
 	default:
 		replaceValue = true
@@ -559,7 +559,7 @@ func toForStmt(forPos token.Pos, value ast.Expr, body *ast.BlockStmt, re *ast.Ra
 		post = &ast.BasicLit{ValuePos: forPos, Kind: token.INT, Value: "1"}
 	} else {
 		switch re.Expr3.(type) {
-		case *ast.Ident, *ast.BasicLit:
+		case *ast.BasicLit:
 			post = re.Expr3
 		default:
 			replaceValue = true
